@@ -57,7 +57,7 @@ def parse_asb(btsd):
             pos += 1
         results = [[(pair[0], pair[1]) for pair in tgt] for tgt in items[pos]]
         return dict(targets=list(targets), context_id=ctx, flags=flags, source=source, source_raw=items[3], params=params, results=results)
-    except (IndexError, TypeError, ValueError, rfc9171.Malformed) as err:
+    except (IndexError, TypeError, ValueError, KeyError, AttributeError, OverflowError, RecursionError, rfc9171.Malformed, cbor2.CBORDecodeError) as err:
         raise AsbError('malformed abstract security block: %s' % err)
 
 
@@ -170,7 +170,7 @@ def verify_bib(bundle, bib_blk, keys):
 
 
 def make_bib(pri, target_blk, key, kid, num, alg=5, scope=None, source='dtn://src/', crc_type=0, flags=0, bundle=None,
-             addl_protected=b'', extra_params=(), primary_raw=None):
+             addl_protected=b'', extra_params=(), primary_raw=None, wrap_cek=None):
     ''' A BIB block (dict for rfc9171.encode_block) with one COSE_Mac0 over
     ``target_blk``. ``pri`` is the primary block dict that will be encoded
     (its exact encoding enters the AAD when the scope includes block 0). '''
@@ -182,13 +182,22 @@ def make_bib(pri, target_blk, key, kid, num, alg=5, scope=None, source='dtn://sr
     source_raw = rfc9171.text_to_eid(source)
     aad = external_aad(pseudo, sec_blk, target_blk, scope, source_raw, addl_protected)
     prot = cbor2.dumps({1: alg})
-    tag = mac0_tag(key, alg, prot, aad, target_blk['btsd'])
-    msg = cbor2.dumps([prot, {4: kid}, None, tag])
+    if wrap_cek is None:
+        tag = mac0_tag(key, alg, prot, aad, target_blk['btsd'])
+        msg = cbor2.dumps([prot, {4: kid}, None, tag])
+        rid = COSE_MAC0
+    else:
+        # COSE_Mac: content key wrapped for one recipient with AES-KW under ``key``
+        from cryptography.hazmat.primitives.keywrap import aes_key_wrap
+        tag = mac_tag(wrap_cek, alg, prot, aad, target_blk['btsd'])
+        kwalg = -3 if len(key) == 16 else -5
+        msg = cbor2.dumps([prot, {}, None, tag, [[b'', {1: kwalg, 4: kid}, aes_key_wrap(key, wrap_cek)]]])
+        rid = COSE_MAC
     params = [(5, scope)]
     if addl_protected:
         params.append((3, addl_protected))
     params.extend(extra_params)
-    btsd = encode_asb([target_blk['num']], source, params, [[(COSE_MAC0, msg)]])
+    btsd = encode_asb([target_blk['num']], source, params, [[(rid, msg)]])
     return dict(type=rfc9171.TYPE_BIB, num=num, flags=flags, crc_type=crc_type, btsd=btsd)
 
 
